@@ -29,7 +29,8 @@ FLOATS = [0.0, -0.0, 1.5, 0.1, -2.5, 2.0 ** -149, 3.4028234663852886e38, float("
 DOUBLES = [0.0, -0.0, 1.5, 0.1, -2.5, 5e-324, 1.7976931348623157e308, float("inf"), float("-inf"), float("nan"), 1,
            9007199254740993, 2.0 ** -149]
 UNENCODABLE = ["\ud800", "ok\udc80", "\ud83d\ude00"]  # lone surrogates: not Unicode text, cannot be written as UTF-8
-STRINGS = ["", "a", "é", "€", "𝄞", "\x00", "a\nb\"\\", "x" * 63, "x" * 64, "é" * 32, "y" * 65, "€" * 2731, "z" * 8192]
+STRINGS = ["", "a", "é", "€", "𝄞", "\x00", "a\nb\"\\", "x" * 63, "x" * 64, "é" * 32, "y" * 65, "€" * 2731, "z" * 8192,
+           "\ufeffhello", "\ufeff", "NaN", "Infinity", "-Infinity"]  # a leading U+FEFF is text, not a byte-order mark; number-like words are strings
 BYTESES = [b"", b"a", b"\x00", b"\xff\xfe", bytes(range(256)), b"q" * 63, b"q" * 64, b"q" * 65, b"r" * 8192, bytearray(b"ba")]
 LONG_N = (63, 64, 65)
 
@@ -141,6 +142,20 @@ def variants(node, defs, k, hints=True, in_union=False, stack=(), big=True):
             if big:
                 for m in LONG_N:
                     out.append(([b] * m, 1))
+                last = iv[-1][0]
+                if deref(n["items"], defs)["k"] in ("int", "long", "float", "double", "string", "boolean", "enum"):
+                    # a long run of plain items and one extreme item at the very end (an item-wise check must reach it)
+                    out.append(([b] * 100 + [last], 1))
+                    out.append(([b] * 300 + [last], 1))
+                ik = deref(n["items"], defs)
+                if ik["k"] in ("int", "long") and "logical" not in ik and isinstance(last, int) and -(1 << 63) <= last < (1 << 63):
+                    import array as _array
+
+                    out.append((_array.array("q", [b, last]), 1))  # a typed array is a sequence like any other
+                if ik["k"] == "double" and "logical" not in ik:
+                    import array as _array
+
+                    out.append((_array.array("d", [0.5, -1e300]), 1))
             if not in_union:
                 out.append(((b, b), 1))
             out += [([b, v], c + 1) for v, c in iv[1:] if c + 1 <= k]
@@ -158,6 +173,7 @@ def variants(node, defs, k, hints=True, in_union=False, stack=(), big=True):
             out.append(({"b": b, "a": b}, 1))
             out.append(({"": b}, 1))
             out.append(({"é\x00": b}, 1))
+            out.append(({"\ufeffk": b, "k": b}, 1))
             out.append(({"k" * 64: b}, 1))
             if big:
                 out.append(({"k%d" % i: b for i in range(64)}, 1))
